@@ -1,13 +1,962 @@
-//! C07 — not yet implemented
-use crate::core::{Ctx, Outcome};
-use serde_json::Value;
+//! C07 — Every execution request is answered exactly once (response or timeout).
+//!
+//! E-ENV. Subject: the real `ExecutionManager::new(request_stream, T, response_tx, Arc<ScriptClient>,
+//! indexer).run()`, polled manually on a paused current-thread tokio runtime. The harness owns the
+//! request channel, the response channel, the clock and every client response future (oneshots).
+//!
+//! One execution = one *batch* of n requests (kind open/cancel x client order id, colliding cids
+//! between an open and a cancel, two instruments) + one *schedule*, a sequence of environment
+//! choices drawn with the `choice` explorer at the instants of a small virtual time line:
+//!   * hand the next request (or a burst of two) to the manager – only up to `deliver_until`,
+//!   * complete the client future of any handed request with one of its behaviours (Ok / Err /
+//!     fully-filled) – before, exactly at, or after its deadline, in any order relative to the others,
+//!     also after its timeout has already been reported (late response),
+//!   * advance the clock to the next instant; when a pending request's deadline is exactly that instant
+//!     the environment also chooses whether the manager runs before or after the next action (the only
+//!     place where "response or timeout" is a legitimate race),
+//!   * finally: `Shutdown` or closing the request channel.
+//! After every action the manager is polled to quiescence and the response channel is drained.
+//!
+//! Oracle (from the statement), evaluated per accepted request at the end of the execution
+//! (= last instant + 2T, far beyond every deadline):
+//!   R-answer       exactly one account event for (request kind, cid): the client's response if it was
+//!                  completed strictly before `handed + T`, a timeout failure if later / never, either
+//!                  – but one – if completed exactly at the deadline. ("never both, never neither")
+//!   R-attribution  the event carries the request's exchange index, instrument index, strategy, cid
+//!                  (and for opens side/price/quantity/kind/time-in-force).
+//!   R-content      a response event carries the client's own answer (Ok -> open / fully filled,
+//!                  Err -> the client's error, indexed).
+//!   R-unsolicited  no account event for a (kind, cid) that was never requested.
+//! The order of events is not part of the property and is ignored (this also makes the verdict
+//! independent of `select!`'s random start branch). When a timeout failure is emitted is not bounded
+//! by the statement beyond "eventually", hence the generous horizon.
 
-pub fn run(_ctx: &Ctx) -> Outcome {
-    eprintln!("MACHINERY: C07 not implemented");
-    std::process::exit(2)
+use crate::core::{Ctx, Distinct, Outcome, Samples, hash_of};
+use crate::explore::{
+    choice::{self, Chooser},
+    env::{flag_waker, paused_rt, poll_quiesce},
+};
+use barter::execution::{AccountStreamEvent, manager::ExecutionManager, request::ExecutionRequest};
+use barter_data::streams::reconnect::Event as RcEvent;
+use barter_execution::{
+    AccountEvent, AccountEventKind, UnindexedAccountEvent, UnindexedAccountSnapshot,
+    balance::AssetBalance,
+    client::ExecutionClient,
+    error::{ApiError, ConnectivityError, OrderError, UnindexedClientError, UnindexedOrderError},
+    indexer::AccountEventIndexer,
+    map::{ExecutionInstrumentMap, generate_execution_instrument_map},
+    order::{
+        Order, OrderEvent, OrderKey, OrderKind, TimeInForce,
+        id::{ClientOrderId, OrderId, StrategyId},
+        request::{
+            OrderRequestCancel, OrderRequestOpen, RequestCancel, RequestOpen,
+            UnindexedOrderResponseCancel,
+        },
+        state::{ActiveOrderState, Cancelled, InactiveOrderState, Open, OrderState},
+    },
+    trade::Trade,
+};
+use barter_instrument::{
+    Keyed, Side,
+    asset::{AssetIndex, QuoteAsset, name::AssetNameExchange},
+    exchange::{ExchangeId, ExchangeIndex},
+    index::IndexedInstruments,
+    instrument::{InstrumentIndex, name::InstrumentNameExchange},
+};
+use barter_integration::{
+    channel::{Tx, mpsc_unbounded},
+    snapshot::Snapshot,
+};
+use chrono::{DateTime, Utc};
+use rayon::prelude::*;
+use rust_decimal::Decimal;
+use serde::{Deserialize, Serialize};
+use serde_json::{Value, json};
+use std::{
+    future::Future,
+    panic::{AssertUnwindSafe, catch_unwind},
+    sync::{
+        Arc, Mutex,
+        atomic::{AtomicU64, Ordering},
+    },
+    task::Poll,
+    time::Duration,
+};
+use tokio::sync::oneshot;
+
+use super::common::{spot, t_plus};
+
+// ------------------------------------------------------------------------------------------------
+// batch alphabet
+// ------------------------------------------------------------------------------------------------
+
+#[derive(Debug, Clone, Copy, PartialEq, Eq, Hash, PartialOrd, Ord, Serialize, Deserialize)]
+pub enum Kind {
+    Open,
+    Cancel,
+}
+impl Kind {
+    fn s(&self) -> &'static str {
+        match self {
+            Kind::Open => "open",
+            Kind::Cancel => "cancel",
+        }
+    }
 }
 
-pub fn replay(_ctx: &Ctx, _case: &Value) {
-    eprintln!("MACHINERY: C07 not implemented");
-    std::process::exit(2)
+/// One request of a batch: kind + cid label (0='A', 1='B', ...). Everything else is derived from the
+/// label (instrument, strategy) and the position in the batch (side, price, quantity, ...), so that
+/// every request of a batch differs from every other one in some echoed field.
+#[derive(Debug, Clone, Copy, PartialEq, Eq, Hash, Serialize, Deserialize)]
+pub struct Req {
+    pub kind: Kind,
+    pub cid: u8,
+}
+
+/// What the scripted client answers.
+#[derive(Debug, Clone, Copy, PartialEq, Eq, Hash, PartialOrd, Ord, Serialize, Deserialize)]
+pub enum Beh {
+    Ok,
+    Err,
+    /// open only: Ok with filled_quantity == quantity
+    Filled,
+}
+
+/// Bounds of one exploration run (recorded in the case so that a replay rebuilds the same choice tree).
+#[derive(Debug, Clone, PartialEq, Serialize, Deserialize)]
+pub struct Params {
+    /// request timeout T [ms]
+    pub timeout_ms: u64,
+    /// the virtual instants [ms] an execution steps through
+    pub instants: Vec<u64>,
+    /// requests are handed to the manager only at instants <= this
+    pub deliver_until: u64,
+    /// allow handing two requests at once (without running the manager in between)
+    pub burst: bool,
+    /// include the fully-filled behaviour for opens
+    pub filled: bool,
+}
+
+/// which exchange the manager serves: 0 = first exchange of a real two-exchange `IndexedInstruments`
+/// (map generated by the real `generate_execution_instrument_map`), 1 = exchange index 1 with a map
+/// built through `ExecutionInstrumentMap::new` (instrument indices 0,1), so that a constant or
+/// foreign exchange index in an answer is observable.
+type Cfg = u8;
+
+fn all_batches(n: usize) -> Vec<Vec<Req>> {
+    // cid labels in first-occurrence order (restricted growth), (kind, cid) pairwise distinct.
+    fn rec(n: usize, cur: &mut Vec<Req>, out: &mut Vec<Vec<Req>>) {
+        if cur.len() == n {
+            out.push(cur.clone());
+            return;
+        }
+        let max_label = cur.iter().map(|r| r.cid + 1).max().unwrap_or(0);
+        for cid in 0..=max_label {
+            for kind in [Kind::Open, Kind::Cancel] {
+                let r = Req { kind, cid };
+                if cur.contains(&r) {
+                    continue;
+                }
+                cur.push(r);
+                rec(n, cur, out);
+                cur.pop();
+            }
+        }
+    }
+    let mut out = Vec::new();
+    rec(n, &mut Vec::new(), &mut out);
+    out
+}
+
+// ------------------------------------------------------------------------------------------------
+// scripted client: every open/cancel call is recorded and answered by the harness through a oneshot
+// ------------------------------------------------------------------------------------------------
+
+type OpenResp = Order<ExchangeId, InstrumentNameExchange, Result<Open, UnindexedOrderError>>;
+
+enum PendingTx {
+    Open(oneshot::Sender<OpenResp>),
+    Cancel(oneshot::Sender<UnindexedOrderResponseCancel>),
+}
+
+struct Call {
+    kind: Kind,
+    key: OrderKey<ExchangeId, InstrumentNameExchange>,
+    open: Option<RequestOpen>,
+    tx: Option<PendingTx>,
+}
+
+#[derive(Clone, Default)]
+struct ScriptClient {
+    calls: Arc<Mutex<Vec<Call>>>,
+}
+
+fn owned_key(k: &OrderKey<ExchangeId, &InstrumentNameExchange>) -> OrderKey<ExchangeId, InstrumentNameExchange> {
+    OrderKey {
+        exchange: k.exchange,
+        instrument: k.instrument.clone(),
+        strategy: k.strategy.clone(),
+        cid: k.cid.clone(),
+    }
+}
+
+impl ExecutionClient for ScriptClient {
+    const EXCHANGE: ExchangeId = ExchangeId::Mock;
+    type Config = ();
+    type AccountStream = futures::stream::Empty<UnindexedAccountEvent>;
+
+    fn new(_: ()) -> Self {
+        Self::default()
+    }
+
+    async fn account_snapshot(
+        &self,
+        _: &[AssetNameExchange],
+        _: &[InstrumentNameExchange],
+    ) -> Result<UnindexedAccountSnapshot, UnindexedClientError> {
+        Err(UnindexedClientError::AccountSnapshot("script".into()))
+    }
+
+    async fn account_stream(
+        &self,
+        _: &[AssetNameExchange],
+        _: &[InstrumentNameExchange],
+    ) -> Result<Self::AccountStream, UnindexedClientError> {
+        Ok(futures::stream::empty())
+    }
+
+    fn cancel_order(
+        &self,
+        request: OrderRequestCancel<ExchangeId, &InstrumentNameExchange>,
+    ) -> impl Future<Output = UnindexedOrderResponseCancel> + Send {
+        let (tx, rx) = oneshot::channel();
+        self.calls.lock().unwrap().push(Call {
+            kind: Kind::Cancel,
+            key: owned_key(&request.key),
+            open: None,
+            tx: Some(PendingTx::Cancel(tx)),
+        });
+        async move {
+            match rx.await {
+                Ok(v) => v,
+                Err(_) => std::future::pending().await,
+            }
+        }
+    }
+
+    fn open_order(
+        &self,
+        request: OrderRequestOpen<ExchangeId, &InstrumentNameExchange>,
+    ) -> impl Future<Output = OpenResp> + Send {
+        let (tx, rx) = oneshot::channel();
+        self.calls.lock().unwrap().push(Call {
+            kind: Kind::Open,
+            key: owned_key(&request.key),
+            open: Some(request.state.clone()),
+            tx: Some(PendingTx::Open(tx)),
+        });
+        async move {
+            match rx.await {
+                Ok(v) => v,
+                Err(_) => std::future::pending().await,
+            }
+        }
+    }
+
+    async fn fetch_balances(&self) -> Result<Vec<AssetBalance<AssetNameExchange>>, UnindexedClientError> {
+        Ok(vec![])
+    }
+
+    async fn fetch_open_orders(
+        &self,
+    ) -> Result<Vec<Order<ExchangeId, InstrumentNameExchange, Open>>, UnindexedClientError> {
+        Ok(vec![])
+    }
+
+    async fn fetch_trades(
+        &self,
+        _: DateTime<Utc>,
+    ) -> Result<Vec<Trade<QuoteAsset, InstrumentNameExchange>>, UnindexedClientError> {
+        Ok(vec![])
+    }
+}
+
+// ------------------------------------------------------------------------------------------------
+// world: index maps + concrete requests
+// ------------------------------------------------------------------------------------------------
+
+struct World {
+    exchange: ExchangeIndex,
+    indexer: AccountEventIndexer,
+}
+
+fn world(cfg: Cfg) -> World {
+    let map = if cfg == 0 {
+        let instruments = IndexedInstruments::builder()
+            .add_instrument(spot(ExchangeId::BinanceSpot, "b_btc_usdt", "BTCUSDT", "btc", "usdt"))
+            .add_instrument(spot(ExchangeId::BinanceSpot, "b_eth_usdt", "ETHUSDT", "eth", "usdt"))
+            .add_instrument(spot(ExchangeId::Kraken, "k_btc_usdt", "XBT/USDT", "btc", "usdt"))
+            .build();
+        generate_execution_instrument_map(&instruments, ExchangeId::BinanceSpot).expect("map")
+    } else {
+        ExecutionInstrumentMap::new(
+            Keyed::new(ExchangeIndex(1), ExchangeId::Kraken),
+            [
+                (AssetIndex(0), AssetNameExchange::new("XBT")),
+                (AssetIndex(1), AssetNameExchange::new("USDT")),
+            ]
+            .into_iter()
+            .collect(),
+            [
+                (InstrumentIndex(0), InstrumentNameExchange::new("XBT/USDT")),
+                (InstrumentIndex(1), InstrumentNameExchange::new("ETH/USDT")),
+            ]
+            .into_iter()
+            .collect(),
+        )
+    };
+    World { exchange: map.exchange.key, indexer: AccountEventIndexer::new(Arc::new(map)) }
+}
+
+fn cid_of(label: u8) -> ClientOrderId {
+    ClientOrderId::new(format!("cid-{}", (b'A' + label) as char))
+}
+fn key_of(w: &World, r: &Req) -> OrderKey<ExchangeIndex, InstrumentIndex> {
+    OrderKey {
+        exchange: w.exchange,
+        instrument: InstrumentIndex((r.cid % 2) as usize),
+        strategy: StrategyId::new(format!("strat-{}", (b'a' + r.cid) as char)),
+        cid: cid_of(r.cid),
+    }
+}
+fn open_state(pos: usize) -> RequestOpen {
+    RequestOpen {
+        side: if pos % 2 == 0 { Side::Buy } else { Side::Sell },
+        price: Decimal::from(100 + pos as i64),
+        quantity: Decimal::from(1 + pos as i64),
+        kind: if pos % 2 == 0 { OrderKind::Limit } else { OrderKind::Market },
+        time_in_force: if pos % 2 == 0 {
+            TimeInForce::GoodUntilCancelled { post_only: false }
+        } else {
+            TimeInForce::ImmediateOrCancel
+        },
+    }
+}
+fn exec_request(w: &World, r: &Req, pos: usize) -> ExecutionRequest {
+    match r.kind {
+        Kind::Open => ExecutionRequest::Open(OrderEvent { key: key_of(w, r), state: open_state(pos) }),
+        Kind::Cancel => ExecutionRequest::Cancel(OrderEvent {
+            key: key_of(w, r),
+            state: RequestCancel { id: if pos % 2 == 0 { Some(OrderId::new(format!("oid-{pos}"))) } else { None } },
+        }),
+    }
+}
+
+// ------------------------------------------------------------------------------------------------
+// one execution
+// ------------------------------------------------------------------------------------------------
+
+thread_local! {
+    /// set while the subject is being polled under catch_unwind: its panics are reported as violations,
+    /// not printed (a panic anywhere else is a machinery failure and keeps the default report)
+    static IN_SUBJECT: std::cell::Cell<bool> = const { std::cell::Cell::new(false) };
+}
+
+fn install_quiet_hook() {
+    static ONCE: std::sync::Once = std::sync::Once::new();
+    ONCE.call_once(|| {
+        let default = std::panic::take_hook();
+        std::panic::set_hook(Box::new(move |info| {
+            if !IN_SUBJECT.with(|f| f.get()) {
+                default(info);
+            }
+        }));
+    });
+}
+
+#[derive(Debug, Clone, PartialEq, Eq, Hash, PartialOrd, Ord)]
+enum Class {
+    Response,
+    Timeout,
+}
+
+#[derive(Debug, Clone, PartialEq, Eq, Hash, PartialOrd, Ord)]
+enum Expect {
+    Response(Beh),
+    Timeout,
+    Either(Beh),
+}
+
+struct Exec {
+    viols: Vec<(String, String)>,
+    /// canonical outcome (order-insensitive): per request (expected, observed classes), terminated
+    outcome: Vec<(Req, Expect, Vec<Class>)>,
+    terminated: bool,
+    trace: Vec<String>,
+}
+
+fn behaviours(kind: Kind, p: &Params) -> Vec<Beh> {
+    match kind {
+        Kind::Open if p.filled => vec![Beh::Ok, Beh::Err, Beh::Filled],
+        _ => vec![Beh::Ok, Beh::Err],
+    }
+}
+
+#[allow(unused_assignments)]
+fn execute(cfg: Cfg, batch: &[Req], p: &Params, ch: &mut Chooser) -> Exec {
+    let w = world(cfg);
+    let rt = paused_rt();
+    let _guard = rt.enter();
+    let timeout = Duration::from_millis(p.timeout_ms);
+
+    let (req_tx, req_rx) = mpsc_unbounded::<ExecutionRequest>();
+    let (resp_tx, mut resp_rx) = mpsc_unbounded::<AccountStreamEvent>();
+    let client = ScriptClient::default();
+    let manager = ExecutionManager::new(
+        req_rx.into_stream(),
+        timeout,
+        resp_tx,
+        Arc::new(client.clone()),
+        w.indexer.clone(),
+    );
+    // `unconstrained`: the subject is polled outside a tokio task; keep tokio's cooperative budget out.
+    let mut fut = Box::pin(tokio::task::unconstrained(manager.run()));
+    let (flag, waker) = flag_waker();
+
+    let mut done = false;
+    let mut panicked: Option<String> = None;
+    let mut events: Vec<(u64, AccountStreamEvent)> = Vec::new();
+    let mut trace: Vec<String> = Vec::new();
+    let mut req_tx = Some(req_tx);
+
+    // run the manager until it is quiescent, then collect what it reported
+    macro_rules! run_manager {
+        ($now:expr) => {{
+            if !done {
+                IN_SUBJECT.with(|f| f.set(true));
+                let polled = catch_unwind(AssertUnwindSafe(|| poll_quiesce(fut.as_mut(), &flag, &waker)));
+                IN_SUBJECT.with(|f| f.set(false));
+                match polled {
+                    Ok(Poll::Ready(())) => done = true,
+                    Ok(Poll::Pending) => {}
+                    Err(e) => {
+                        let msg = e
+                            .downcast_ref::<String>()
+                            .cloned()
+                            .or_else(|| e.downcast_ref::<&str>().map(|s| s.to_string()))
+                            .unwrap_or_else(|| "?".into());
+                        panicked = Some(msg);
+                        done = true;
+                    }
+                }
+            }
+            while let Ok(ev) = resp_rx.rx.try_recv() {
+                events.push(($now, ev));
+            }
+        }};
+    }
+
+    let n = batch.len();
+    let mut handed_at: Vec<Option<u64>> = vec![None; n];
+    let mut completed: Vec<Option<(u64, Beh, bool)>> = vec![None; n]; // (instant, behaviour, client call existed)
+    let mut next = 0usize;
+    let mut idx = 0usize; // index into p.instants
+    let mut now = p.instants[0];
+    assert_eq!(now, 0, "time line starts at 0");
+
+    // the first request is handed over at instant 0 (a later first delivery is a time shift)
+    macro_rules! hand {
+        ($k:expr) => {{
+            for _ in 0..$k {
+                let i = next;
+                let _ = req_tx.as_ref().unwrap().send(exec_request(&w, &batch[i], i));
+                handed_at[i] = Some(now);
+                trace.push(format!("t={now}: hand #{i} {:?}", batch[i]));
+                next += 1;
+            }
+        }};
+    }
+    hand!(1);
+    run_manager!(now);
+
+    let mut stopped_early = false; // run() returned (or panicked) before Shutdown / channel close
+    let mut must_act = false; // set after "advance without running the manager": an action must follow
+    loop {
+        // enabled actions at this point
+        #[derive(Clone, Copy)]
+        enum A {
+            Advance,
+            Finish,
+            Hand(usize),
+            Complete(usize, Beh),
+        }
+        let mut acts: Vec<A> = Vec::new();
+        let last = idx + 1 == p.instants.len();
+        let may_hand = next < n && now <= p.deliver_until;
+        // all requests of the batch must be handed over: do not leave the delivery window before
+        let must_hand = next < n && (last || p.instants[idx + 1] > p.deliver_until);
+        if !must_act && !must_hand {
+            acts.push(if last { A::Finish } else { A::Advance });
+        }
+        if may_hand {
+            acts.push(A::Hand(1));
+            if p.burst && n - next >= 2 {
+                acts.push(A::Hand(2));
+            }
+        }
+        for i in 0..next {
+            if completed[i].is_none() {
+                for b in behaviours(batch[i].kind, p) {
+                    acts.push(A::Complete(i, b));
+                }
+            }
+        }
+        assert!(!acts.is_empty(), "no enabled action");
+        let a = acts[ch.choose(acts.len())];
+        must_act = false;
+        match a {
+            A::Hand(k) => {
+                hand!(k);
+                run_manager!(now);
+            }
+            A::Complete(i, b) => {
+                let existed = complete(&client, &batch[i], b, i);
+                completed[i] = Some((now, b, existed));
+                trace.push(format!("t={now}: client answers #{i} with {b:?}{}", if existed { "" } else { " (client was never called: void)" }));
+                run_manager!(now);
+            }
+            A::Advance => {
+                run_manager!(now); // nothing is left unprocessed at the old instant
+                idx += 1;
+                let delta = p.instants[idx] - now;
+                now = p.instants[idx];
+                rt.block_on(tokio::time::advance(Duration::from_millis(delta)));
+                // a pending request whose deadline is exactly `now`: response and timeout may race
+                let race = (0..next).any(|i| completed[i].is_none() && handed_at[i].unwrap() + p.timeout_ms == now);
+                let others = next < n && now <= p.deliver_until; // a hand-over is possible as next action
+                let any_action = others || (0..next).any(|i| completed[i].is_none());
+                if race && any_action && ch.choose(2) == 1 {
+                    trace.push(format!("t={now}: clock advanced, manager not yet run"));
+                    must_act = true;
+                } else {
+                    trace.push(format!("t={now}: clock advanced, manager run"));
+                    run_manager!(now);
+                }
+            }
+            A::Finish => {
+                run_manager!(now);
+                // horizon: far beyond every deadline
+                rt.block_on(tokio::time::advance(Duration::from_millis(2 * p.timeout_ms)));
+                now += 2 * p.timeout_ms;
+                run_manager!(now);
+                stopped_early = done;
+                if ch.choose(2) == 0 {
+                    let _ = req_tx.as_ref().unwrap().send(ExecutionRequest::Shutdown);
+                    trace.push(format!("t={now}: Shutdown"));
+                } else {
+                    req_tx = None;
+                    trace.push(format!("t={now}: request channel closed"));
+                }
+                run_manager!(now);
+                break;
+            }
+        }
+    }
+    let terminated = done && panicked.is_none();
+
+    // ---------------------------------------------------------------------------- oracle
+    let mut viols: Vec<(String, String)> = Vec::new();
+    let mut unanswered: Vec<String> = Vec::new();
+    let mut used = vec![false; events.len()];
+    let mut outcome = Vec::new();
+    for (i, r) in batch.iter().enumerate() {
+        let Some(h) = handed_at[i] else { continue };
+        let deadline = h + p.timeout_ms;
+        let expect = match completed[i] {
+            Some((c, b, true)) if c < deadline => Expect::Response(b),
+            Some((c, b, true)) if c == deadline => Expect::Either(b),
+            _ => Expect::Timeout,
+        };
+        let key = key_of(&w, r);
+        let mut classes = Vec::new();
+        for (e, (at, ev)) in events.iter().enumerate() {
+            let Some((class, problems)) = judge_event(&w, r, i, &key, completed[i].map(|c| c.1), ev) else { continue };
+            used[e] = true;
+            for (field, detail) in problems {
+                let c = if class == Class::Timeout { "timeout" } else { "response" };
+                viols.push((
+                    if field == "content" {
+                        format!("C07/response-content/{}/client-answer={}", r.kind.s(), completed[i].map(|c| format!("{:?}", c.1)).unwrap_or("none".into()))
+                    } else {
+                        format!("C07/attribution/{}/{c}/{field}", r.kind.s())
+                    },
+                    format!("request #{i} {r:?} key={key:?}: event at t={at} {detail}; event={ev:?}"),
+                ));
+            }
+            classes.push(class);
+        }
+        classes.sort();
+        let got = match classes.as_slice() {
+            [] => "none",
+            [Class::Response] => "response",
+            [Class::Timeout] => "timeout",
+            cs if cs.iter().all(|c| *c == Class::Response) => "duplicate-response",
+            cs if cs.iter().all(|c| *c == Class::Timeout) => "duplicate-timeout",
+            _ => "both",
+        };
+        let (exp_s, ok) = match &expect {
+            Expect::Response(_) => ("response", got == "response"),
+            Expect::Timeout => ("timeout", got == "timeout"),
+            Expect::Either(_) => ("either", got == "response" || got == "timeout"),
+        };
+        if !ok && got == "none" && stopped_early {
+            // consequence of the manager having stopped: folded into one signature below
+            unanswered.push(format!("#{i} {r:?} (expected {exp_s})"));
+        } else if !ok {
+            viols.push((
+                format!("C07/answer/{}/expected={exp_s}/got={got}", r.kind.s()),
+                format!(
+                    "request #{i} {r:?} handed at t={h} (deadline t={deadline}), client answer {:?}: expected exactly one {exp_s}, observed {classes:?}{}",
+                    completed[i].map(|c| (c.0, c.1)),
+                    if terminated { "" } else { " [manager did not terminate normally]" }
+                ),
+            ));
+        }
+        outcome.push((*r, expect, classes));
+    }
+    if !unanswered.is_empty() {
+        let (sig, why) = match &panicked {
+            Some(msg) => ("C07/manager-panicked/requests-unanswered", format!("ExecutionManager::run panicked: {msg}")),
+            None => ("C07/manager-stopped-without-shutdown/requests-unanswered", "ExecutionManager::run returned although neither Shutdown was sent nor the request channel closed".to_string()),
+        };
+        viols.push((sig.into(), format!("{why}; requests left without any answer: {unanswered:?}")));
+    }
+    for (e, (at, ev)) in events.iter().enumerate() {
+        if !used[e] {
+            let what = match ev {
+                RcEvent::Reconnecting(_) => "reconnecting",
+                RcEvent::Item(AccountEvent { kind: AccountEventKind::OrderSnapshot(_), .. }) => "open",
+                RcEvent::Item(AccountEvent { kind: AccountEventKind::OrderCancelled(_), .. }) => "cancel",
+                _ => "other-event",
+            };
+            viols.push((
+                format!("C07/unsolicited/{what}"),
+                format!("event at t={at} answers no request of the batch {batch:?}: {ev:?}"),
+            ));
+        }
+    }
+    Exec { viols, outcome, terminated, trace }
+}
+
+/// Complete the client future of request `r`; false if the manager never called the client for it.
+fn complete(client: &ScriptClient, r: &Req, b: Beh, pos: usize) -> bool {
+    let mut calls = client.calls.lock().unwrap();
+    let cid = cid_of(r.cid);
+    let Some(call) = calls.iter_mut().find(|c| c.kind == r.kind && c.key.cid == cid && c.tx.is_some()) else {
+        return false;
+    };
+    match call.tx.take().unwrap() {
+        PendingTx::Open(tx) => {
+            let st = call.open.clone().unwrap();
+            let state = match b {
+                Beh::Ok => Ok(open_meta(pos, Decimal::ZERO)),
+                Beh::Filled => Ok(open_meta(pos, st.quantity)),
+                Beh::Err => Err(client_error()),
+            };
+            // a late answer finds the receiver gone: that is fine
+            let _ = tx.send(Order {
+                key: call.key.clone(),
+                side: st.side,
+                price: st.price,
+                quantity: st.quantity,
+                kind: st.kind,
+                time_in_force: st.time_in_force,
+                state,
+            });
+        }
+        PendingTx::Cancel(tx) => {
+            let state = match b {
+                Beh::Err => Err(client_error()),
+                _ => Ok(cancelled_meta(pos)),
+            };
+            let _ = tx.send(OrderEvent { key: call.key.clone(), state });
+        }
+    }
+    true
+}
+
+fn open_meta(pos: usize, filled: Decimal) -> Open {
+    Open { id: OrderId::new(format!("xid-{pos}")), time_exchange: t_plus(10 + pos as i64), filled_quantity: filled }
+}
+fn cancelled_meta(pos: usize) -> Cancelled {
+    Cancelled { id: OrderId::new(format!("xid-{pos}")), time_exchange: t_plus(20 + pos as i64) }
+}
+fn client_error() -> UnindexedOrderError {
+    UnindexedOrderError::Rejected(ApiError::OrderRejected("scripted rejection".into()))
+}
+fn client_error_indexed() -> OrderError {
+    OrderError::Rejected(ApiError::OrderRejected("scripted rejection".into()))
+}
+
+/// Does `ev` answer request `r` (same kind of answer, same cid)? If so classify it and list the
+/// attribution / content problems as (field, detail).
+fn judge_event(
+    w: &World,
+    r: &Req,
+    pos: usize,
+    key: &OrderKey<ExchangeIndex, InstrumentIndex>,
+    beh: Option<Beh>,
+    ev: &AccountStreamEvent,
+) -> Option<(Class, Vec<(&'static str, String)>)> {
+    let RcEvent::Item(AccountEvent { exchange, kind }) = ev else { return None };
+    let mut problems: Vec<(&'static str, String)> = Vec::new();
+    let (class, ev_key) = match (r.kind, kind) {
+        (Kind::Open, AccountEventKind::OrderSnapshot(Snapshot(o))) if o.key.cid == key.cid => {
+            let st = open_state(pos);
+            if o.side != st.side || o.price != st.price || o.quantity != st.quantity || o.kind != st.kind || o.time_in_force != st.time_in_force {
+                problems.push(("order-fields", format!("does not echo the request {st:?}")));
+            }
+            let class = match &o.state {
+                OrderState::Inactive(InactiveOrderState::OpenFailed(OrderError::Connectivity(ConnectivityError::Timeout))) => Class::Timeout,
+                _ => Class::Response,
+            };
+            if class == Class::Response {
+                let ok = match beh {
+                    Some(Beh::Ok) => o.state == OrderState::active(open_meta(pos, Decimal::ZERO)),
+                    // the statement does not say how a filled answer is presented: both are the client's answer
+                    Some(Beh::Filled) => {
+                        o.state == OrderState::fully_filled() || o.state == OrderState::active(open_meta(pos, st.quantity))
+                    }
+                    Some(Beh::Err) => o.state == OrderState::inactive(client_error_indexed()),
+                    None => false, // a response although the client never answered
+                };
+                if !ok {
+                    problems.push(("content", format!("is not the client's own answer {beh:?}")));
+                }
+            }
+            (class, &o.key)
+        }
+        (Kind::Cancel, AccountEventKind::OrderCancelled(c)) if c.key.cid == key.cid => {
+            let class = match &c.state {
+                Err(OrderError::Connectivity(ConnectivityError::Timeout)) => Class::Timeout,
+                _ => Class::Response,
+            };
+            if class == Class::Response {
+                let ok = match beh {
+                    Some(Beh::Err) => c.state == Err(client_error_indexed()),
+                    Some(_) => c.state == Ok(cancelled_meta(pos)),
+                    None => false,
+                };
+                if !ok {
+                    problems.push(("content", format!("is not the client's own answer {beh:?}")));
+                }
+            }
+            (class, &c.key)
+        }
+        _ => return None,
+    };
+    if *exchange != w.exchange || ev_key.exchange != w.exchange {
+        problems.push(("exchange", format!("carries exchange {exchange:?}/{:?}, manager serves {:?}", ev_key.exchange, w.exchange)));
+    }
+    if ev_key.instrument != key.instrument {
+        problems.push(("instrument", format!("carries instrument {:?}, request has {:?}", ev_key.instrument, key.instrument)));
+    }
+    if ev_key.strategy != key.strategy {
+        problems.push(("strategy", format!("carries strategy {:?}, request has {:?}", ev_key.strategy, key.strategy)));
+    }
+    Some((class, problems))
+}
+
+// ------------------------------------------------------------------------------------------------
+// exploration
+// ------------------------------------------------------------------------------------------------
+
+fn case_json(cfg: Cfg, batch: &[Req], p: &Params, choices: Vec<usize>) -> Value {
+    json!({"engine": "env", "cfg": cfg, "batch": batch, "params": p, "choices": choices})
+}
+
+struct Tally {
+    executions: AtomicU64,
+    choice_points: AtomicU64,
+    terminated: AtomicU64,
+    answered_by_response: AtomicU64,
+    answered_by_timeout: AtomicU64,
+    race_at_deadline: AtomicU64,
+    selfchecks: AtomicU64,
+    distinct: Distinct,
+    samples: Mutex<std::collections::BTreeMap<u64, Value>>,
+}
+
+fn explore_batch(ctx: &Ctx, cfg: Cfg, batch: &[Req], p: &Params, bound: Option<usize>, t: &Tally) -> choice::ChoiceStats {
+    let stats = choice::explore(bound, |ch| {
+        let ex = execute(cfg, batch, p, ch);
+        let choices = ch.choices();
+        // determinism self-check on a fixed subset of the schedules: same schedule twice => same observations
+        if hash_of(&choices) % 97 == 0 {
+            let mut ch2 = Chooser::new(choices.clone());
+            let ex2 = execute(cfg, batch, p, &mut ch2);
+            let sigs = |e: &Exec| e.viols.iter().map(|v| v.0.clone()).collect::<Vec<_>>();
+            if ex2.outcome != ex.outcome || sigs(&ex2) != sigs(&ex) || ex2.terminated != ex.terminated {
+                if ex.viols.is_empty() && ex2.viols.is_empty() {
+                    eprintln!("MACHINERY: C07 schedule is not deterministic: {}", case_json(cfg, batch, p, choices.clone()));
+                    std::process::exit(2);
+                }
+                // the subject itself behaves differently on the same schedule (select!'s random start branch)
+                // and at least one behaviour breaks the property: that is a verdict, report both runs
+                for (sig, detail) in ex2.viols {
+                    ctx.violate(sig, format!("{detail} || schedule: {}", ex2.trace.join("; ")), case_json(cfg, batch, p, choices.clone()));
+                }
+            }
+            t.selfchecks.fetch_add(1, Ordering::Relaxed);
+        }
+        t.executions.fetch_add(1, Ordering::Relaxed);
+        if ex.terminated {
+            t.terminated.fetch_add(1, Ordering::Relaxed);
+        }
+        for (_, expect, classes) in &ex.outcome {
+            match expect {
+                Expect::Either(_) => t.race_at_deadline.fetch_add(1, Ordering::Relaxed),
+                Expect::Timeout => 0,
+                Expect::Response(_) => 0,
+            };
+            for c in classes {
+                match c {
+                    Class::Response => t.answered_by_response.fetch_add(1, Ordering::Relaxed),
+                    Class::Timeout => t.answered_by_timeout.fetch_add(1, Ordering::Relaxed),
+                };
+            }
+        }
+        t.distinct.add(&(cfg, batch.to_vec(), ex.outcome.clone()));
+        if batch.len() >= 2 && ex.outcome.iter().any(|o| o.2 == vec![Class::Response]) && ex.outcome.iter().any(|o| o.2 == vec![Class::Timeout]) {
+            // deterministic sample: the few mixed executions with the smallest case hash
+            let h = hash_of(&(cfg, batch.to_vec(), choices.clone()));
+            let mut g = t.samples.lock().unwrap();
+            if g.len() < 4 || h < *g.keys().next_back().unwrap() {
+                g.insert(h, json!({"case": case_json(cfg, batch, p, choices.clone()), "trace": ex.trace}));
+                if g.len() > 4 {
+                    let last = *g.keys().next_back().unwrap();
+                    g.remove(&last);
+                }
+            }
+        }
+        for (sig, detail) in ex.viols {
+            ctx.violate(sig, format!("{detail} || schedule: {}", ex.trace.join("; ")), case_json(cfg, batch, p, choices.clone()));
+        }
+    });
+    t.choice_points.fetch_add(stats.choice_points, Ordering::Relaxed);
+    stats
+}
+
+pub fn run(ctx: &Ctx) -> Outcome {
+    install_quiet_hook();
+    let quick = ctx.tier == crate::core::Tier::Quick;
+    // (label, n, cfgs, params, deviation bound)
+    let uniform = |filled: bool, burst: bool| Params {
+        timeout_ms: 200,
+        instants: vec![0, 100, 200, 300, 400],
+        deliver_until: 100,
+        burst,
+        filled,
+    };
+    // epsilon instants around the deadlines (199/200/201 and 299/300/301) for the thorough tier
+    let eps = |filled: bool| Params {
+        timeout_ms: 200,
+        instants: vec![0, 100, 199, 200, 201, 299, 300, 301],
+        deliver_until: 100,
+        burst: false,
+        filled,
+    };
+    let mut plans: Vec<(&str, usize, Vec<Cfg>, Params, Option<usize>)> = vec![
+        ("n=1", 1, vec![0, 1], uniform(true, true), None),
+        ("n=2", 2, vec![0, 1], uniform(true, true), None),
+    ];
+    if quick {
+        plans.push(("n=3", 3, vec![0, 1], uniform(false, false), None));
+    } else {
+        plans.push(("n=3", 3, vec![0, 1], uniform(false, true), None));
+        plans.push(("n=2/eps", 2, vec![0], eps(true), None));
+        plans.push(("n=3/eps", 3, vec![0], eps(false), Some(4)));
+        plans.push(("n=4", 4, vec![0], uniform(false, false), Some(4)));
+        // three hand-over instants, T = 3 ticks: requests whose deadlines are all different
+        let t3 = Params { timeout_ms: 300, instants: vec![0, 100, 200, 300, 400, 500, 600], deliver_until: 200, burst: false, filled: false };
+        plans.push(("n=3/T=3ticks", 3, vec![1], t3, None));
+    }
+
+    let t = Tally {
+        executions: AtomicU64::new(0),
+        choice_points: AtomicU64::new(0),
+        terminated: AtomicU64::new(0),
+        answered_by_response: AtomicU64::new(0),
+        answered_by_timeout: AtomicU64::new(0),
+        race_at_deadline: AtomicU64::new(0),
+        selfchecks: AtomicU64::new(0),
+        distinct: Distinct::default(),
+        samples: Mutex::new(Default::default()),
+    };
+    let mut per_plan = Vec::new();
+    let mut all_exhaustive = true;
+    for (label, n, cfgs, p, bound) in &plans {
+        let batches = all_batches(*n);
+        let jobs: Vec<(Cfg, Vec<Req>)> =
+            cfgs.iter().flat_map(|c| batches.iter().map(move |b| (*c, b.clone()))).collect();
+        let before = t.executions.load(Ordering::Relaxed);
+        let max_points = jobs
+            .par_iter()
+            .map(|(cfg, b)| explore_batch(ctx, *cfg, b, p, *bound, &t).max_points)
+            .max()
+            .unwrap_or(0);
+        let execs = t.executions.load(Ordering::Relaxed) - before;
+        all_exhaustive &= bound.is_none();
+        per_plan.push(json!({
+            "plan": label, "requests": n, "configs": cfgs, "batches": batches.len(), "params": p,
+            "deviation_bound": bound, "all_schedules": bound.is_none(), "executions": execs, "max_choice_points": max_points,
+        }));
+        eprintln!("C07 {label}: batches={} cfgs={} executions={execs} elapsed={:.1}s", batches.len(), cfgs.len(), ctx.start.elapsed().as_secs_f64());
+    }
+    let executions = t.executions.load(Ordering::Relaxed);
+    Outcome {
+        level: "exploration",
+        coverage: json!({
+            "evaluations": executions,
+            "distinct_nontrivial": t.distinct.len(),
+            "choice_points": t.choice_points.load(Ordering::Relaxed),
+            "executions_terminated_on_shutdown_or_close": t.terminated.load(Ordering::Relaxed),
+            "answers_by_response": t.answered_by_response.load(Ordering::Relaxed),
+            "answers_by_timeout": t.answered_by_timeout.load(Ordering::Relaxed),
+            "requests_racing_at_deadline": t.race_at_deadline.load(Ordering::Relaxed),
+            "determinism_selfchecks": t.selfchecks.load(Ordering::Relaxed),
+            "exhaustive": all_exhaustive,
+            "plans": per_plan,
+            "rule": "every environment schedule (hand-over instants, per-request client answer Ok/Err/filled before/at/after the deadline or never, all answer orders, manager run before/after an answer at the deadline instant, Shutdown/close) of every batch of n open/cancel requests with colliding cids, executed on the real ExecutionManager::run under virtual time; per request exactly one answer of the class the statement prescribes, correctly attributed",
+            "samples": t.samples.lock().unwrap().values().cloned().collect::<Vec<_>>(),
+        }),
+        assumptions: vec![
+            "client order ids are unique per (request kind) within a batch; an open and a cancel may share a cid".into(),
+            "requests name instruments configured for the manager's exchange (the code panics otherwise by design)".into(),
+            "the client echoes the order key it was called with; its error answer is an API rejection (distinguishable from a timeout failure)".into(),
+            "the manager task is run whenever the clock reaches a new instant before anything later happens (no scheduler starvation); only at the deadline instant itself the order is an environment choice".into(),
+            "select!'s random start branch is not enumerated; the oracle ignores the order of events".into(),
+            "virtual instants are whole milliseconds (tokio timer granularity)".into(),
+        ],
+    }
+}
+
+pub fn replay(ctx: &Ctx, case: &Value) {
+    let cfg: Cfg = serde_json::from_value(case["cfg"].clone()).expect("replay: cfg");
+    let batch: Vec<Req> = serde_json::from_value(case["batch"].clone()).expect("replay: batch");
+    let p: Params = serde_json::from_value(case["params"].clone()).expect("replay: params");
+    let choices: Vec<usize> = serde_json::from_value(case["choices"].clone()).expect("replay: choices");
+    install_quiet_hook();
+    let mut ch = Chooser::new(choices);
+    let ex = execute(cfg, &batch, &p, &mut ch);
+    for line in &ex.trace {
+        println!("replay: {line}");
+    }
+    for (r, expect, got) in &ex.outcome {
+        println!("replay: {r:?}: expected {expect:?}, observed {got:?}");
+    }
+    println!("replay: manager terminated normally = {}", ex.terminated);
+    for (sig, detail) in ex.viols {
+        ctx.violate(sig, detail, case.clone());
+    }
 }
